@@ -56,3 +56,78 @@ Proof.
   split; [|reflexivity]. apply Forall_forall. intros x Hx. apply in_map_iff in Hx.
   destruct Hx as [i [<- Hi]]. apply in_seq in Hi. lia.
 Qed.
+
+(* ---------- 3.5 inch (Sony GCR) ---------- *)
+From A2 Require Import Img.Track525 Img.Sony Img.SonyProofs Img.Track35 Img.Track35Proofs.
+
+(* the GENERATED 3.5 inch disk byte table has the same properties, and its inverse table inverts it *)
+Theorem c08_table62_35 :
+  (forallb disk_byte_ok disk_bytes_62_35 = true /\ length disk_bytes_62_35 = 64%nat /\ NoDup disk_bytes_62_35)
+  /\ forall v, v < 64 -> sinv (senc v) = v.
+Proof. exact (conj stab_ok stab_back). Qed.
+Print Assumptions c08_table62_35.
+
+(* for EVERY 524-byte sector content (12 tag bytes + 512 data bytes) the 699 data nibbles and 4 checksum nibbles produced by the
+   three rotating checksums decode to it, the checksum comparison included; sizes are the generated constants of disk35.rs *)
+Theorem c08_sony_roundtrip : forall d, bytes d -> length d = N.to_nat d35_sector_size ->
+  sony_decode (N.to_nat d35_chunk62 - 1) (sony_encode d) = ROk d
+  /\ length (sony_encode d) = N.to_nat (d35_data_nibs + d35_chk_nibs)
+  /\ forallb disk_byte_ok (sony_encode d) = true.
+Proof.
+  intros d Hd Hl. split; [|split].
+  - apply sony_roundtrip; [rewrite Hl; reflexivity | exact Hd].
+  - rewrite (sony_encode_length 174) by (rewrite Hl; reflexivity). reflexivity.
+  - apply sony_encode_ok.
+Qed.
+Print Assumptions c08_sony_roundtrip.
+
+(* the checksum transform alone, for any state of the three checksums and any length of the form 3n+2 *)
+Theorem c08_sony_parts : forall n d s, (length d = 3 * n + 2)%nat -> bytes d ->
+  let '(ps, f) := enc_parts s d in dec_parts s ps = (d, f) /\ length ps = S n.
+Proof. exact parts_roundtrip. Qed.
+Print Assumptions c08_sony_parts.
+
+(* non-interference on a 3.5 inch track: writing a sector that exists on the track replaces the 703 nibbles of its own data field
+   and no other bit of the track; the field then decodes to 12 zero tag bytes followed by the data padded / cut to 512 bytes;
+   a sector number that is not on the track changes nothing; the track always has the bit count recorded for its zone *)
+Theorem c08_track35_write_local : forall sides track datas sec d,
+  (zone_of sides track < 5)%nat -> sec < dnth zoned_secs_per_track (zone_of sides track) ->
+  exists pre post,
+    track_bits35 sides track datas = pre ++ bytes_bits (sony_encode (datas sec)) ++ post /\
+    track_bits35 sides track (upd_datas35 datas sec d) = pre ++ bytes_bits (sony_encode (tagged d)) ++ post.
+Proof. exact track35_write_local. Qed.
+Print Assumptions c08_track35_write_local.
+
+Theorem c08_track35_field_decodes : forall d, bytes d ->
+  sony_decode 174 (sony_encode (tagged d)) = ROk (tagged d) /\ skipn 12 (tagged d) = firstn 512 (d ++ repeat 0 512).
+Proof. exact track35_field_decodes. Qed.
+Print Assumptions c08_track35_field_decodes.
+
+Theorem c08_track35_absent : forall sides track datas sec d,
+  (zone_of sides track < 5)%nat -> dnth zoned_secs_per_track (zone_of sides track) <= sec ->
+  track_bits35 sides track (upd_datas35 datas sec d) = track_bits35 sides track datas.
+Proof. exact track35_absent. Qed.
+Print Assumptions c08_track35_absent.
+
+Theorem c08_track35_bit_count : forall sides track datas, (zone_of sides track < 5)%nat -> (forall s, length (datas s) = 524%nat) ->
+  lenN (track_bits35 sides track datas) = dnth d35_track_bits (zone_of sides track).
+Proof. exact track35_bit_count. Qed.
+Print Assumptions c08_track35_bit_count.
+
+(* the same non-interference for both 5.25 inch formats: a write replaces the data area of the one position that carries the
+   sector number and nothing else (every sector number below the sector count occurs at exactly one position) *)
+Theorem c08_track525_write_local : forall f sync vol trk datas sec d,
+  f = fmt13 \/ f = fmt16 -> sec < N.of_nat (sectors_of f) ->
+  exists pre post,
+    track_bits f sync vol trk datas = pre ++ data_area f sync (datas sec) ++ post /\
+    track_bits f sync vol trk (upd_datas datas sec d) = pre ++ data_area f sync (Some (pad256 d)) ++ post.
+Proof. exact track525_write_local. Qed.
+Print Assumptions c08_track525_write_local.
+
+Example c08_sony_nonvacuous :
+  bytes (map (fun i => N.of_nat i mod 256) (seq 0 524)) /\ length (map (fun i => N.of_nat i mod 256) (seq 0 524)) = N.to_nat d35_sector_size
+  /\ (zone_of 2 100 < 5)%nat /\ 7 < dnth zoned_secs_per_track (zone_of 2 100).
+Proof.
+  split; [|split; [reflexivity|split; vm_compute; [lia|reflexivity]]]. apply Forall_forall. intros x Hx. apply in_map_iff in Hx.
+  destruct Hx as [i [<- _]]. apply N.mod_upper_bound. lia.
+Qed.
